@@ -89,7 +89,7 @@ FAMILIES = {
 
 # which kinds of H2 failure count for which property
 KINDS = {
-    "C01": {"ledger", "O"}, "C02": {"O"}, "C03": {"O", "K"}, "C04": {"corrupt", "A", "HB"}, "C05": {"ledger", "O"},
+    "C01": {"ledger", "O"}, "C02": {"O"}, "C03": {"O", "K"}, "C04": {"corrupt", "A", "HB", "ledger", "O"}, "C05": {"ledger", "O"},
     "C06": {"stuck", "A"}, "C07": {"A", "HB", "M"}, "C08": {"O"}, "C09": {"O", "A", "stuck", "ledger"}, "C10": {"O"},
     "C11": {"O", "stuck"}, "C12": {"O", "K"}, "C13": {"O", "A", "ledger", "stuck", "K"}, "C14": {"O", "K", "stuck"},
     "C15": {"O", "A", "ledger", "stuck", "HB"}, "C16": {"O", "A", "stuck"}, "C17": {"M", "HB"}, "C19": {"O", "K"},
